@@ -950,3 +950,118 @@ M.loop(P_SDDV + ':StringDdv.value_when_no_dir_dependencies', 'join#0',
        invariant=lambda _i, acc, first, self:
        iff(first, _i == 0) and acc == prefix_fold(_cat_value_no_deps, '', self._fragments, _i),
        modifies=dict(acc=Str, first=Bool, element='local'))
+
+
+# --- lists: a referenced list is spliced in, anything else is one element
+
+_REF_ELEMENT = Inst(list_sdv.SymbolReferenceElementSdv, _symbol_reference=REFERENCE)
+
+M.contract(P_LSDV + ':SymbolReferenceElementSdv.resolve', params=dict(self=_REF_ELEMENT, symbols=DATA_TABLE),
+           requires=lambda self, symbols: self._symbol_reference.name in view(symbols),     # validated: ref_ok
+           ensures={
+               'the value of the referenced symbol, resolved against the same table': lambda self, symbols, trace:
+               len([e for e in trace if e[0] == 'resolved']) == 1 and _resolved(trace)[2] is symbols
+               and _resolved(trace)[1] is view(symbols)[self._symbol_reference.name].sdv,
+               'string: one element, the string itself': lambda result, trace:
+               implies(isinstance(_resolved(trace)[3], string_ddv.StringDdv),
+                       len(result) == 1 and result[0] is _resolved(trace)[3]),
+               'list: its elements, in order (spliced in)': lambda result, trace:
+               (not isinstance(_resolved(trace)[3], list_ddv.ListDdv)) or (
+                       len(result) == len(_resolved(trace)[3].string_elements)
+                       and forall_range(0, len(result), lambda k: result[k] is _resolved(trace)[3].string_elements[k])),
+               'path: one element, the path as a string': lambda result, trace:
+               (not isinstance(_resolved(trace)[3], PathDdv)) or (
+                       len(result) == 1 and type(result[0]) is string_ddv.StringDdv and len(result[0].fragments) == 1
+                       and type(result[0].fragments[0]) is strings_ddvs.PathFragmentDdv
+                       and result[0].fragments[0].value is _resolved(trace)[3]),
+           }, raises_only=())
+
+
+class StringSdvI(Interface):
+    target_class = string_sdv.StringSdv
+    methods = {'resolve': Method(returns=Iface(StringDdvI), event='string-resolved')}
+
+
+M.contract(P_LSDV + ':StringElementSdv.resolve',
+           params=dict(self=Inst(list_sdv.StringElementSdv, _string_sdv=Iface(StringSdvI)), symbols=Any_), inline=True,
+           ensures={'one element: the string, resolved against the given table': lambda self, symbols, result, trace:
+           len(result) == 1 and result[0] is [e[2] for e in trace if e[0] == 'string-resolved:returned'][0]
+           and [e[2][0] for e in trace if e[0] == 'string-resolved'] == [symbols]},
+           raises_only=())
+
+M.contract(P_LDDV + ':ListDdv.value_of_any_dependency',
+           params=dict(self=Inst(list_ddv.ListDdv, _string_elements=ListOf(Iface(StringDdvI))), tcds=TCDS),
+           ensures={'the values of the elements, in order': lambda self, tcds, result:
+           len(result) == len(self._string_elements)
+           and forall_range(0, len(result), lambda k: result[k] == self._string_elements[k].value_of_any_dependency(tcds))},
+           raises_only=())
+
+
+# ListSdv.resolve accumulates the resolved elements with list.extend over pieces of unknown length (a mutable list
+# of objects): out of reach of the engine -> bounded stand-in, together with an end-to-end comparison of real
+# string / list / path symbols against textual substitution.
+
+@M.bounded('substitution: ListSdv.resolve / StringSdv.resolve against textual substitution')
+def _bounded_substitution(ctx):
+    import itertools
+    import pathlib
+    from exactly_lib.symbol.sdv_structure import container_of_builtin
+    from exactly_lib.type_val_deps.types.path import path_ddvs, path_sdvs
+    from exactly_lib.type_val_deps.types.string_ import string_sdvs
+    from exactly_lib.type_val_deps.types.list_ import list_sdvs
+    from exactly_lib.type_val_deps.sym_ref.w_str_rend_restrictions import reference_restrictions as r_
+    from exactly_lib.tcfs.path_relativity import RelOptionType
+
+    any_ = r_.is_any_type_w_str_rendering()
+    abs_path = pathlib.Path('/abs/dir')
+    # the symbols: two strings (one built from the other), two lists (one built from the other + a string), a path
+    sym = SymbolTable()
+    expected = {}
+
+    def put(name, vt, sdv, value):
+        sym.put(name, container_of_builtin(vt, sdv))
+        expected[name] = value
+
+    put('s1', ValueType.STRING, string_sdvs.str_constant('a b'), 'a b')
+    put('s2', ValueType.STRING, string_sdvs.from_fragments([string_sdvs.str_fragment('<'),
+                                                            string_sdvs.symbol_fragment(SymbolReference('s1', any_)),
+                                                            string_sdvs.str_fragment('>')]), '<a b>')
+    put('e', ValueType.STRING, string_sdvs.str_constant(''), '')
+    put('p', ValueType.PATH, path_sdvs.constant(path_ddvs.absolute_path(abs_path)), abs_path)
+    put('l0', ValueType.LIST, list_sdvs.from_elements([]), [])
+    put('l1', ValueType.LIST, list_sdvs.from_str_constants(['x', 'y z']), ['x', 'y z'])
+    put('l2', ValueType.LIST, list_sdvs.from_elements([list_sdvs.symbol_element(SymbolReference('l1', any_)),
+                                                       list_sdvs.symbol_element(SymbolReference('s2', any_)),
+                                                       list_sdvs.str_element('k')]), ['x', 'y z', '<a b>', 'k'])
+
+    def as_text(name):
+        v = expected[name]
+        return ' '.join(v) if isinstance(v, list) else str(v)
+
+    def as_elements(name):
+        v = expected[name]
+        return list(v) if isinstance(v, list) else [str(v)]
+
+    names = sorted(expected)
+    atoms = [('const', c) for c in ('', 'q', ' ')] + [('sym', n) for n in names]
+    failures = []
+    cases = 0
+    for n in range(0, 4):
+        for combo in itertools.product(atoms, repeat=n):
+            cases += 1
+            # a string made of these fragments
+            frags = [string_sdvs.str_fragment(x) if k == 'const' else
+                     string_sdvs.symbol_fragment(SymbolReference(x, any_)) for k, x in combo]
+            actual = string_sdvs.from_fragments(frags).resolve(sym).value_when_no_dir_dependencies()
+            want = ''.join(x if k == 'const' else as_text(x) for k, x in combo)
+            if actual != want:
+                failures.append({'input': 'string %r' % (combo,), 'expected': want, 'actual': actual})
+            # a list made of these elements
+            elems = [list_sdvs.str_element(x) if k == 'const' else
+                     list_sdvs.symbol_element(SymbolReference(x, any_)) for k, x in combo]
+            actual = list_sdvs.from_elements(elems).resolve(sym).value_when_no_dir_dependencies()
+            want = [y for k, x in combo for y in ([x] if k == 'const' else as_elements(x))]
+            if actual != want:
+                failures.append({'input': 'list %r' % (combo,), 'expected': want, 'actual': actual})
+    ctx.bounded_result('ListSdv.resolve / StringSdv.resolve', 'sequences of <= 3 fragments/elements over 3 constants '
+                       'and 7 symbols (strings, lists, path; direct and indirect)', cases, True, failures)
